@@ -96,7 +96,7 @@ func newCursor(ctx context.Context, state State, itf ItFactory) (*crsr, error) {
 	var tmr *model.TimeRange
 	if sel.Range != nil {
 		tmr = &model.TimeRange{}
-		tmr.MinTs = utils.GetInt64Val((*int64)(sel.Range.TmPoint1), 0)
+		tmr.MinTs = utils.GetInt64Val((*int64)(sel.Range.TmPoint1), math.MinInt64)
 		tmr.MaxTs = utils.GetInt64Val((*int64)(sel.Range.TmPoint2), math.MaxInt64)
 	}
 
